@@ -23,6 +23,7 @@ EXPLANATION = ("a: for every HashMap field that the query entry point reads befo
                "field that can hold a proof graph or a search object, so it cannot carry answers from one query to the next.")
 FLOORS = {"memo_writes": 1}
 EXPLANATION += ' a (added): the key function renders every fact value injectively - the only uses of a `Value` on the way into the key are its Debug rendering, hashing or serialising the value itself; to_number/to_string/Display style conversions conflate Integer(5), Number(5.0) and String("5").'
+EXPLANATION += ' a (added): the verdict depends on the configuration, which is not in the key: every &mut self method of BackwardEngine that stores the configuration or a verdict-relevant part of it (everything but max_solutions) discards the goal manager / its cache on every path.'
 
 BE = "backward::backward_engine::BackwardEngine"
 GM = "backward::goal::GoalManager"
